@@ -45,6 +45,10 @@ CHECKS = {
     'C15': ('proof', 'Types 6/8/17: after the byte-aligned header the returned bytes are exactly orig[h..] (sequence equality), for all lengths and contents.', '4 C15'),
     'C16': ('proof', 'SOTDMA / ITDMA contracts from M.1371 on SotdmaMessage/ItdmaMessage/SubMessage::parse and placement at bits 149..167 (selector 148) in the seven carrying types.', '4 C16'),
     'C17': ('proof', 'Frame clauses of the parse contract (rejected lines and unfragmented sentences leave the abstract state unchanged) and lemma erase over `step`.', '4 C17'),
+    'C18': ('proof', 'Common specification: every contract of every other property is discharged by Verus under the std configuration and again under the alloc '
+            'configuration (same extracted text, cfg-resolved), so the two builds agree on acceptance, error category and every field the contracts determine. The no-allocator build '
+            'is covered only by Kani bounded stand-ins on the real heapless code (unarmor against the same reference for n in {0,3,5}; text capacity 21 characters is an error, not a panic); '
+            'a heapless contract shim for Verus was not built.', '0.2 / 4 C18'),
     'C19': ('proof', 'One Verus clause on parse_ais_sentence / parse_nmea_sentence: message_type == sixbit(first payload byte); refuted on the unchanged tree and listed as known finding D4 '
             'with its signature obligation.', '4 C19'),
 }
@@ -53,8 +57,7 @@ CHECKS = {
 def main():
     props = [json.loads(l) for l in open(os.path.join(ROOT, 'properties.jsonl'))]
     na_reasons = {
-        'C18': 'check not built yet: needs the heapless contract shim and cfg-resolved runs (DESIGN.md section 4, C18)',
-        'C20': 'check not built yet: per-line handler of the CLI under Kani (DESIGN.md section 4, C20); process-level I/O is outside contract verification',
+        'C20': 'no contract within reach can express or decide it: the property is about effects on stdin/stdout/stderr, record ordering and the exit status of a process, for which neither Verus nor Kani has a specification language here; the one contract-expressible fragment (the per-line handler returns for every line content) was tried as a Kani harness with AisParser::parse stubbed and does not finish in CBMC (println!/Debug formatting machinery), so nothing is claimed. Observation outside any check: from_utf8(line).unwrap() in src/bin/aisparser.rs panics on a line that is not valid UTF-8.',
     }
     checks = []
     for p in props:
